@@ -143,3 +143,178 @@ theorem remove_drop_exec (cfg : Cfg) (w : World) (v i id : Nat) (d : VecSt)
     logDrop]
 
 end AnyVec
+
+namespace AnyVec
+open World
+
+/-- destructor runs of `ids`, oldest first -/
+def World.logDrops (hasDrop : Bool) (ids : List Nat) (w : World) : World :=
+  ids.foldl (fun w id => logDrop hasDrop id w) w
+
+@[simp] theorem World.logDrops_nil (b : Bool) (w : World) : logDrops b [] w = w := rfl
+@[simp] theorem World.logDrops_cons (b : Bool) (id : Nat) (ids : List Nat) (w : World) :
+    logDrops b (id :: ids) w = logDrops b ids (logDrop b id w) := rfl
+@[simp] theorem World.logDrops_vecs (b : Bool) (ids : List Nat) (w : World) : (logDrops b ids w).vecs = w.vecs := by
+  induction ids generalizing w with
+  | nil => rfl
+  | cons id ids ih => simp [ih]
+@[simp] theorem World.logDrops_fault (b : Bool) (ids : List Nat) (w : World) : (logDrops b ids w).fault = w.fault := by
+  induction ids generalizing w with
+  | nil => rfl
+  | cons id ids ih => simp [ih]
+@[simp] theorem World.logDrops_held (b : Bool) (ids : List Nat) (w : World) : (logDrops b ids w).held = w.held := by
+  induction ids generalizing w with
+  | nil => rfl
+  | cons id ids ih => simp [ih]
+@[simp] theorem World.logDrops_created (b : Bool) (ids : List Nat) (w : World) : (logDrops b ids w).created = w.created := by
+  induction ids generalizing w with
+  | nil => rfl
+  | cons id ids ih => simp [ih]
+theorem World.logDrops_dropLog (b : Bool) (ids : List Nat) (w : World) :
+    (logDrops b ids w).dropLog = ids.reverse ++ w.dropLog := by
+  induction ids generalizing w with
+  | nil => rfl
+  | cons id ids ih => simp [ih]
+
+/-- the erased destructor loop without an injected fault destroys exactly the elements of the
+slots `[i, i+k)`, in order, and touches no vector -/
+theorem dropLoop_nofault (w : World) (v : Nat) (d : VecSt) (hasDrop : Bool) (i k : Nat) (ids : List Nat)
+    (hv : w.vecs[v]? = some d) (hl : d.live = true) (hf : w.fault = none) (hcap : i + k ≤ d.cap)
+    (hlen : ids.length = k) (hids : ∀ j, j < k → d.cells.get (i + j) = .val (ids.getD j 0)) :
+    dropLoop v hasDrop i k w = (logDrops hasDrop ids w, .ok ()) := by
+  induction k generalizing i ids w with
+  | zero =>
+    have : ids = [] := List.length_eq_zero_iff.mp hlen
+    subst this; rfl
+  | succ k ih =>
+    match ids, hlen with
+    | id :: rest, hlen =>
+      have hlt : v < w.vecs.length := (List.getElem?_eq_some_iff.mp hv).1
+      have hd : w.vecs[v] = d := (List.getElem?_eq_some_iff.mp hv).2
+      have h0 := hids 0 (by omega)
+      simp at h0
+      have hb : i < d.cap := by omega
+      simp only [dropLoop, WM.bind_apply]
+      simp [readElem, getVec, hlt, hd, hl, VecSt.readElem_ok, hb, h0, World.dropElem_nofault, hf]
+      apply ih (w := logDrop hasDrop id w) (i := i + 1) (ids := rest) (by simpa using hv) (by simpa using hf)
+        (by omega) (by simpa using hlen)
+      intro j hj
+      have := hids (j + 1) (by omega)
+      simp at this
+      rw [show i + 1 + j = i + (j + 1) by omega]
+      exact this
+
+end AnyVec
+
+namespace AnyVec
+open World
+
+/-- the typed slice destructor without an injected fault: same effect as the erased loop -/
+theorem dropSlice_nofault (w : World) (v : Nat) (d : VecSt) (hasDrop : Bool) (i k : Nat) (ids : List Nat)
+    (hv : w.vecs[v]? = some d) (hl : d.live = true) (hf : w.fault = none) (hcap : i + k ≤ d.cap)
+    (hlen : ids.length = k) (hids : ∀ j, j < k → d.cells.get (i + j) = .val (ids.getD j 0)) :
+    dropSlice v hasDrop i k w = (logDrops hasDrop ids w, .ok ()) := by
+  induction k generalizing i ids w with
+  | zero =>
+    have : ids = [] := List.length_eq_zero_iff.mp hlen
+    subst this; rfl
+  | succ k ih =>
+    match ids, hlen with
+    | id :: rest, hlen =>
+      have hlt : v < w.vecs.length := (List.getElem?_eq_some_iff.mp hv).1
+      have hd : w.vecs[v] = d := (List.getElem?_eq_some_iff.mp hv).2
+      have h0 := hids 0 (by omega)
+      simp at h0
+      have hb : i < d.cap := by omega
+      simp only [dropSlice, WM.bind_apply]
+      simp [readElem, getVec, hlt, hd, hl, VecSt.readElem_ok, hb, h0, World.dropElem_nofault, hf, WM.onUnwind]
+      apply ih (w := logDrop hasDrop id w) (i := i + 1) (ids := rest) (by simpa using hv) (by simpa using hf)
+        (by omega) (by simpa using hlen)
+      intro j hj
+      have := hids (j + 1) (by omega)
+      simp at this
+      rw [show i + 1 + j = i + (j + 1) by omega]
+      exact this
+
+/-- `drop_elements_range(s, e)` without an injected fault (erased or typed) -/
+theorem dropRange_nofault (w : World) (v : Nat) (d : VecSt) (typed : Bool) (s e : Nat)
+    (hv : w.vecs[v]? = some d) (hl : d.live = true) (hf : w.fault = none) (hcap : s + (e - s) ≤ d.cap)
+    (hinit : d.InitRange s (e - s)) :
+    dropRange v typed s e w = (logDrops d.hasDrop (d.idsRange s (e - s)) w, .ok ()) := by
+  have hlt : v < w.vecs.length := (List.getElem?_eq_some_iff.mp hv).1
+  have hd : w.vecs[v] = d := (List.getElem?_eq_some_iff.mp hv).2
+  have hids := fun j hj => VecSt.idsRange_get d s (e - s) j hj hinit
+  simp only [dropRange, WM.bind_apply, getVec_ok w v d hv hl]
+  cases hD : d.hasDrop
+  · simp only [Bool.false_eq_true, if_false]
+    exact dropLoop_nofault w v d false s (e - s) _ hv hl hf hcap (by simp) hids
+  · cases typed
+    · simp only [if_true, Bool.false_eq_true, if_false]
+      exact dropLoop_nofault w v d true s (e - s) _ hv hl hf hcap (by simp) hids
+    · simp only [if_true]
+      exact dropSlice_nofault w v d true s (e - s) _ hv hl hf hcap (by simp) hids
+
+theorem World.logDrop_upd (b : Bool) (id v : Nat) (x : VecSt) (w : World) :
+    logDrop b id (w.upd v x) = (logDrop b id w).upd v x := rfl
+
+theorem World.logDrops_upd (b : Bool) (ids : List Nat) (v : Nat) (x : VecSt) (w : World) :
+    logDrops b ids (w.upd v x) = (logDrops b ids w).upd v x := by
+  induction ids generalizing w with
+  | nil => rfl
+  | cons id ids ih => simp [World.logDrop_upd, ih]
+
+/-- `clear()` without an injected fault -/
+theorem clear_exec (cfg : Cfg) (w : World) (v : Nat) (d : VecSt)
+    (hv : w.vecs[v]? = some d) (hl : d.live = true) (hwf : d.WF) (hinit : d.Init) (hf : w.fault = none) :
+    step cfg (.clear v) w = ((logDrops d.hasDrop d.ids w).upd v { d with len := 0 }, .ok []) := by
+  have hlt : v < w.vecs.length := (List.getElem?_eq_some_iff.mp hv).1
+  have hd : w.vecs[v] = d := (List.getElem?_eq_some_iff.mp hv).2
+  have hlc := hwf.len_le_cap
+  have hdr := dropRange_nofault (w.upd v { d with len := 0 }) v { d with len := 0 } false 0 d.len
+    (by simp [hlt]) hl (by simpa using hf) (by simp; omega) (by simpa [VecSt.InitRange, VecSt.Init] using hinit)
+  simp only [hl, Nat.sub_zero] at hdr
+  simp [step, getVec, hl, hlt, hd, setLen, hdr, World.logDrops_upd, VecSt.ids, VecSt.idsRange]
+
+end AnyVec
+
+namespace AnyVec
+open World
+
+/-- storage and length after `Drain::drop` closed the gap `[s, e)` of a vector of `n` elements -/
+def VecSt.drainClose (v : VecSt) (s e n : Nat) : VecSt :=
+  { v with cells := memmove (v.cells.ensure (max (e + (n - e)) (s + (n - e)))) e s (n - e),
+           len := n - (e - s) }
+
+theorem VecSt.drainClose_abs (v : VecSt) (s e n : Nat) (hse : s ≤ e) (hen : e ≤ n) (hn : n ≤ v.cells.length) :
+    (v.drainClose s e n).abs = v.cells.take s ++ (v.cells.take n).drop e := by
+  simp only [VecSt.drainClose, VecSt.abs]
+  rw [ensure_of_le _ _ (by omega)]
+  exact drain_mem v.cells n s e hse hen hn
+
+theorem VecSt.drainClose_wf (v : VecSt) (s e n : Nat) (hse : s ≤ e) (hen : e ≤ n) (hn : n ≤ v.cells.length)
+    (hc : v.cells.length ≤ v.cap) : (v.drainClose s e n).WF := by
+  constructor
+  · simp only [VecSt.drainClose]
+    rw [ensure_of_le _ _ (by omega), memmove_length _ _ _ _ (by omega) (by omega)]; omega
+  · simp only [VecSt.drainClose]
+    rw [ensure_of_le _ _ (by omega), memmove_length _ _ _ _ (by omega) (by omega)]; exact hc
+
+/-- `Drain::drop` in any consumption state, no injected fault: the not yet yielded elements are
+destroyed, the tail closes the gap, the length is restored -/
+theorem drainDrop_exec (w : World) (it : RangeIt) (d : VecSt)
+    (hv : w.vecs[it.v]? = some d) (hl : d.live = true) (hf : w.fault = none)
+    (h1 : it.start ≤ it.index) (h2 : it.index ≤ it.end_) (h3 : it.end_ ≤ it.end0)
+    (h4 : it.end0 ≤ it.origLen) (h5 : it.origLen ≤ d.cells.length) (h6 : d.cells.length ≤ d.cap)
+    (hinit : d.InitRange it.index (it.end_ - it.index)) :
+    drainDrop it w =
+      ((logDrops d.hasDrop (d.idsRange it.index (it.end_ - it.index)) w).upd it.v
+        (d.drainClose it.start it.end0 it.origLen), .ok ()) := by
+  have hlt : it.v < w.vecs.length := (List.getElem?_eq_some_iff.mp hv).1
+  have hdr := dropRange_nofault w it.v d it.typed it.index it.end_ hv hl hf (by omega) hinit
+  have hb1 : it.end0 + (it.origLen - it.end0) ≤ d.cap := by omega
+  have hb2 : it.start + (it.origLen - it.end0) ≤ d.cap := by omega
+  have hd : w.vecs[it.v] = d := (List.getElem?_eq_some_iff.mp hv).2
+  simp [drainDrop, hdr, moveElems, getVec, hd, hl, VecSt.moveElems_ok, hb1, hb2, setLen, hlt, World.upd,
+    VecSt.drainClose]
+
+end AnyVec
